@@ -64,7 +64,7 @@ pub(super) fn handle_prev_state<'i>(
                 .map_err(UncatchableError::from)?;
 
             verifier::verify_call(
-                argument_hash.as_ref().unwrap(),
+                resolved_argument_hash(argument_hash, &met_result.result)?,
                 tetraplet,
                 &service_result_aggregate.argument_hash,
                 &current_tetraplet,
@@ -91,7 +91,7 @@ pub(super) fn handle_prev_state<'i>(
                 Some(call_result) => {
                     update_state_with_service_result(
                         tetraplet.clone(),
-                        argument_hash.expect("Result for joinable error").clone(),
+                        resolved_argument_hash(argument_hash, &met_result.result)?.clone(),
                         output,
                         call_result,
                         exec_ctx,
@@ -122,7 +122,7 @@ pub(super) fn handle_prev_state<'i>(
 
             populate_context_from_data(
                 value.clone(),
-                argument_hash.as_ref().unwrap(),
+                resolved_argument_hash(argument_hash, &value)?,
                 tetraplet.clone(),
                 met_result.trace_pos,
                 met_result.source,
@@ -143,6 +143,20 @@ pub(super) fn handle_prev_state<'i>(
             Ok(StateDescriptor::executed())
         }
     }
+}
+
+/// A call state that carries a result can be produced only after the call arguments
+/// were resolved; data where such state is met while the arguments aren't resolved yet
+/// (a joinable error) doesn't correspond to this script.
+fn resolved_argument_hash<'hash>(
+    argument_hash: Option<&'hash Rc<str>>,
+    stored_state: &dyn std::fmt::Debug,
+) -> Result<&'hash Rc<str>, UncatchableError> {
+    argument_hash.ok_or_else(|| UncatchableError::InstructionParametersMismatch {
+        param: "call argument_hash",
+        expected_value: "<arguments are not resolved yet>".to_owned(),
+        stored_value: format!("{stored_state:?}"),
+    })
 }
 
 use super::call_result_setter::*;
